@@ -32,6 +32,8 @@ def run_cases(res, binary, cases, want, extra=None, nontrivial=None, max_fail=12
         res.count("policy:" + cfg.policy)
         for k in ("asyncs", "handlers", "forwards", "isends", "bcasts", "callbacks", "masked", "hprogress"):
             res.count("total_" + k, out.get(k, 0))
+        for k, v in local.distribution.items():
+            res.count(k, v)
         if out.get("verdict") == "ok" and (nontrivial(out) if nontrivial else out.get("handlers", 0) > 0):
             res.distinct.add(nontrivial_key(cfg, out))
         if len(res.oracle_failures) < max_fail:
